@@ -44,6 +44,18 @@ type kindRunResult struct {
 	convs   map[*ssa.Convert]ISet
 	convTop map[*ssa.Convert]bool
 	entered map[*ssa.Function]bool
+	// library calls executed on some path of this kind -> key of the term of their
+	// first argument (the receiver of a reflect setter), and the root's returns
+	libCalls map[*ssa.Call]string
+	rets     []kindRet
+}
+
+// kindRet: one return of the explored root on a path of the kind.
+type kindRet struct {
+	Ret    *ssa.Return
+	Err    *Term // the error result (nil when the root has none)
+	Origin *Term // the recorded call the error is the result of, if any
+	Armed  bool  // a boundary (wire reader / writer) was met before
 }
 
 type kindRunKey struct {
@@ -72,10 +84,21 @@ func (w *World) kindRun(fn *ssa.Function, k int64, side string) *kindRunResult {
 	if side == "enc" {
 		bounds = w.writerBoundaries()
 	} else {
-		bounds = w.readerBoundaries()
+		bounds = map[*ssa.Function]string{}
+		for f, l := range w.readerBoundaries() {
+			bounds[f] = l
+		}
+		// the field dispatch hands the stream to value readers: a function that obtains
+		// a fresh tag itself reads one value of its own production (readMap, the
+		// struct-field dispatcher, …) and is not part of the kind dispatch
+		for _, f := range w.SrcFuncs() {
+			if _, isB := bounds[f]; !isB && f != fn && f.Parent() == nil && w.readsFreshTag(f) {
+				bounds[f] = "reader:" + w.canonName(f)
+			}
+		}
 	}
 	delete(bounds, fn)
-	res := &kindRunResult{uses: map[*ssa.Convert][]convUse{}, convs: map[*ssa.Convert]ISet{}, convTop: map[*ssa.Convert]bool{}, entered: map[*ssa.Function]bool{fn: true}}
+	res := &kindRunResult{uses: map[*ssa.Convert][]convUse{}, convs: map[*ssa.Convert]ISet{}, convTop: map[*ssa.Convert]bool{}, entered: map[*ssa.Function]bool{fn: true}, libCalls: map[*ssa.Call]string{}}
 	var px *PX
 	checkUse := func(t *Term, st *pxState, depth int) {}
 	checkUse = func(t *Term, st *pxState, depth int) {
@@ -140,6 +163,11 @@ func (w *World) kindRun(fn *ssa.Function, k int64, side string) *kindRunResult {
 				return false
 			}
 			sc := px.calleeOf(c, fr, st) // static, or through a function value the path knows
+			if sc != nil && !w.inPkg(sc) && len(c.Call.Args) > 0 {
+				if _, seen := res.libCalls[c]; !seen {
+					res.libCalls[c] = px.term(c.Call.Args[0], fr, st).key
+				}
+			}
 			label, isB := "", false
 			if sc != nil {
 				label, isB = bounds[sc]
@@ -177,6 +205,15 @@ func (w *World) kindRun(fn *ssa.Function, k int64, side string) *kindRunResult {
 			return true
 		},
 		onReturn: func(fr *pxFrame, ret *ssa.Return, results []*Term, st *pxState) {
+			if _, pinned := st.vals["__kind"]; pinned {
+				kr := kindRet{Ret: ret}
+				_, kr.Armed = st.vals["__arm"]
+				if idx := errIndex(fn.Signature); idx >= 0 && idx < len(results) {
+					kr.Err = results[idx]
+					kr.Origin = st.originOf(results[idx])
+				}
+				res.rets = append(res.rets, kr)
+			}
 			if _, done := st.vals["__arm"]; done {
 				return
 			}
